@@ -221,6 +221,9 @@ func runCheck(prop, tier, repo, verif string, keep bool, only string, verbose bo
 func engineFailure(prop, tier, verif string, seed int, t0 time.Time, msg string) int {
 	// The check could not run at all: report it as a violation of the obligation
 	// "machinery can generate the obligations" rather than passing vacuously.
+	if d := os.Getenv("GVC_OUT"); d != "" {
+		verif = d
+	}
 	os.MkdirAll(filepath.Join(verif, "replays"), 0o755)
 	path := filepath.Join(verif, "replays", prop+"-engine.json")
 	b, _ := json.MarshalIndent(map[string]interface{}{"property": prop, "obligation": "engine", "kind": "no-failing-input-found", "reason": msg}, "", " ")
